@@ -324,6 +324,49 @@ func main() {
 		}
 	}
 
+	// (f) a generic function instantiated with ONE type under two spellings (byte here, uint8
+	// in an imported package): go/ssa creates the instance once per program and keeps the
+	// spelling of whoever asked first, so the order in which package bodies are built must
+	// not depend on scheduling
+	{
+		gm := filepath.Join(scratch, "c01", "genmod")
+		wr := func(rel, src string) {
+			os.MkdirAll(filepath.Dir(filepath.Join(gm, rel)), 0o755)
+			os.WriteFile(filepath.Join(gm, rel), []byte(src), 0o644)
+		}
+		wr("go.mod", "module example.com/genmod\n\ngo 1.24\n")
+		wr("gen/gen.go", "package gen\n\nfunc Pick[T any](a T, b T, first bool) T {\n\tif first {\n\t\treturn a\n\t}\n\treturn b\n}\n\nfunc Last[T any](xs []T) (out T) {\n\tfor _, x := range xs {\n\t\tout = x\n\t}\n\treturn out\n}\n")
+		wr("dep/dep.go", "package dep\n\nimport \"example.com/genmod/gen\"\n\nfunc Low(a uint8, b uint8) uint8 { return gen.Pick[uint8](a, b, a < b) }\n\nfunc Tail(xs []int32) int32 { return gen.Last[int32](xs) }\n\nfunc Any(xs []interface{}) interface{} { return gen.Last[interface{}](xs) }\n")
+		wr("app/app.go", "package app\n\nimport (\n\t\"example.com/genmod/dep\"\n\t\"example.com/genmod/gen\"\n)\n\nfunc Choose(a byte, b byte) byte {\n\treturn gen.Pick[byte](a, b, dep.Low(a, b) == a)\n}\n\nfunc End(rs []rune) rune { return gen.Last[rune](rs) + dep.Tail(nil) }\n\nfunc Whatever(xs []any) any {\n\tif len(xs) == 0 {\n\t\treturn dep.Any(nil)\n\t}\n\treturn gen.Last[any](xs)\n}\n")
+		af := filepath.Join(gm, "app", "app.go")
+		const nProc = 9
+		obs := make([]map[string][]triple, nProc)
+		errs := make([]error, nProc)
+		var gw sync.WaitGroup
+		for i := 0; i < nProc; i++ {
+			gw.Add(1)
+			go func(i int) {
+				defer gw.Done()
+				obs[i], errs[i] = child(af, []int{1, 2, 16}[i%3])
+			}(i)
+		}
+		gw.Wait()
+		for i := 1; i < nProc; i++ {
+			if errs[0] != nil || errs[i] != nil {
+				res.Inconcl(1)
+				res.Logf("C01: generic-spelling observation failed: %v %v\n", errs[0], errs[i])
+				continue
+			}
+			for pol, ts := range obs[i] {
+				res.Eval(1)
+				res.Count("generic_spelling_observations", len(ts))
+				if !sameTriples(obs[0][pol], ts) {
+					res.Violate("nondeterministic/generic-instance-spelling", fmt.Sprintf("app/app.go uses gen.Pick[byte], its import dep uses gen.Pick[uint8] (%s policy): process %d reports something else than process 0: %s", pol, i, firstDiff(obs[0][pol], ts)), map[string]any{"file": af, "policy": pol})
+				}
+			}
+		}
+	}
+
 	// (c') cold concurrent start: fresh processes whose very first fingerprint calls are made
 	// by many goroutines at once (prior history: none), each on its own file
 	{
